@@ -19,7 +19,7 @@ Signers == {<< >>, <<"o1">>, <<"o2">>, <<"o1", "o2">>}
 Edits == {"none", "step_name", "threshold", "pubkeys", "command", "mrule", "prule",
           "keys_add", "readme", "expires", "expires_minus", "add_step"}
 
-Shapes == {"asis", "empty", "flipped", "relabel", "dup", "dupbad"}
+Shapes == {"asis", "empty", "flipped", "relabel", "dup", "dupbad", "dupsplit_bad", "dupsplit_foreign", "dupsplit_relabel"}
 
 OtherOwner(k) == IF k = "o1" THEN "o2" ELSE "o1"
 
@@ -31,6 +31,13 @@ SigList(signers, shape) ==
     [] shape = "relabel" -> IF good = << >> THEN good
                             ELSE <<Relabel(OtherOwner(signers[1]), signers[1])>> \o Tail(good)
     [] shape = "dup"     -> IF good = << >> THEN good ELSE <<good[1]>> \o good
+    \* the same valid signature twice, NOT adjacent: separated by a signature that does not count
+    [] shape = "dupsplit_bad" -> IF good = << >> THEN good
+                                 ELSE <<good[1], BadSig(OtherOwner(signers[1])), good[1]>> \o Tail(good)
+    [] shape = "dupsplit_foreign" -> IF good = << >> THEN good
+                                 ELSE <<good[1], GoodSig("o3"), good[1]>> \o Tail(good)
+    [] shape = "dupsplit_relabel" -> IF good = << >> THEN good
+                                 ELSE <<good[1], Relabel(OtherOwner(signers[1]), "o3"), good[1]>> \o Tail(good)
     [] shape = "dupbad"  -> IF good = << >> THEN good ELSE <<BadSig(signers[1]), BadSig(signers[1])>> \o Tail(good)
 
 Layout(sigs, edit) ==
